@@ -62,7 +62,7 @@ olareg serve --port 5050 --store-ro --dir mirror/
 olareg serve --store-type mem
 
 # disable garbage collection
-olareg serve --gc-frequency -1
+olareg serve --gc-frequency -1s
 
 # run an HTTPS server
 olareg serve --tls-cert host.pem --tls-key host.key --port 443
